@@ -1,6 +1,7 @@
 """Configuration of ./check C07 (see pylib/props.py)."""
 CFG = dict(
-        coq=["props/C07.vo"],
+        coq=["props/C07.vo", "props/Compose.vo"],
+        compose=['Compose_ingest_src', 'Compose_ingest_tables', 'Compose_shape', 'Compose_ingest_exact', 'Compose_ingest_transfer', 'Compose_ingested_table'],
         tie=["gen/Tie_C07.vo"],
         model_vo=["model/Transfer.vo", "model/TransferSpec.vo"],
         extract="Ex_C07",
